@@ -2,10 +2,10 @@
 .PHONY: setup coq model clean
 setup: coq model
 coq:
-	mkdir -p ocaml/extracted build
-	python3 -c "import sys; sys.path.insert(0,'/verif'); from vlib.common import ensure_tables; ensure_tables()"
+	mkdir -p ocaml/extracted build coq/gen
+	python3 -c "import sys; sys.path.insert(0,'$(CURDIR)'); from vlib.common import ensure_tables; ensure_tables()"
 	cd coq && coq_makefile -f _CoqProject -o Makefile && timeout 3000 $(MAKE) -j16
 model: coq
-	python3 -c "import sys; sys.path.insert(0,'/verif'); from vlib.common import model_build; print(model_build())"
+	python3 -c "import sys; sys.path.insert(0,'$(CURDIR)'); from vlib.common import model_build; print(model_build())"
 clean:
 	rm -rf build ocaml/_build ocaml/extracted; cd coq && rm -f *.vo *.vos *.vok *.glob .*.aux gen/*.vo gen/*.glob Makefile Makefile.conf .Makefile.d
